@@ -320,6 +320,45 @@ theorem outcome_independent_of_record_names {v v' : Ent} {mods mods' : List Ent}
     OutcomeSame (assemble v mods pid pname).1 (assemble v' mods' pid pname).1 :=
   assemble_names_outcome pid pname hv hm
 
+/-- every supplied module that its class accepts is in the evaluated prefix when no module was refused -/
+theorem evalPrefix_mem : ∀ (mods : List Ent) (gs : List (GMod Word)), evalPrefix mods = (gs, none) →
+    ∀ e ∈ mods, ∀ g, e.gmod = .ok g → g ∈ gs := by
+  intro mods
+  induction mods with
+  | nil => intro gs _ e he; cases he
+  | cons e0 es ih =>
+    intro gs h e he g hg
+    simp only [evalPrefix] at h
+    cases h0 : e0.gmod with
+    | error x => rw [h0] at h; simp at h
+    | ok g0 =>
+      rw [h0] at h
+      simp only [Prod.mk.injEq] at h
+      obtain ⟨rfl, herr⟩ := h
+      rcases List.mem_cons.mp he with rfl | he
+      · rw [h0] at hg; cases hg; exact List.mem_cons_self ..
+      · exact List.mem_cons_of_mem _ (ih (evalPrefix es).1 (by rw [← herr]) e he g hg)
+
+/-- **a module whose start overhang is its own reverse complement is never ligated** — whatever else is supplied,
+whatever the vector: such an assembly returns no product (at the level of records, not only of the overhang graph) -/
+theorem palindromic_module_never_assembled {v : Ent} {mods : List Ent} {pid pname : Nat} {e : Ent} {g : GMod Word}
+    (he : e ∈ mods) (hg : e.gmod = .ok g) (hp : rc g.start = g.start) :
+    ∀ p after, assemble v mods pid pname ≠ (.ok p, after) := by
+  intro p after h
+  obtain ⟨gv, gs, map, chain, rest, _, _, h3, h4, h5, _⟩ := assemble_ok h
+  have hgs : g ∈ gs := evalPrefix_mem mods gs h3 e he g hg
+  obtain ⟨m', hm', hs⟩ := (C03.gBuild_keeps_starts gs [] map h4).2 g hgs
+  have hclash : gRcClash rc map = true := by
+    unfold gRcClash
+    rw [List.any_eq_true]
+    refine ⟨m', hm', ?_⟩
+    rw [hs, hp]
+    cases hl : gLookup map g.start with
+    | some _ => rfl
+    | none => exact absurd hs ((gLookup_none.mp hl) m' hm')
+  rw [hclash] at h5
+  cases h5
+
 /-! non-vacuity: a complete BsaI-like assembly on a toy geometry (site `GA`, off 1, k 2) evaluated by the
 model: vector `N(NN)(N TC N* GA N)(NN)N`, one module, product = module fragment ++ vector fragment -/
 section example_
